@@ -15,11 +15,16 @@ Correspondence: grad / jacobian of small integer-polynomial tensor diagrams on t
 (streams pgrad, pjac) and eval / grad of diagrams with a polynomial bubble (streams xeval, xgrad:
 tensor.Bubble.grad against the model's chain-rule terms).
 """
+import os
 import random
+import sys
 import time
 
 import numpy as np
 import sympy
+
+if __name__ == "__main__":           # `python props/c15.py --history-child seed tier` (fresh-process values)
+    sys.path.insert(0, os.path.dirname(os.path.dirname(os.path.abspath(__file__))))
 
 from common import Driver, Report, lean_obligations, err_class, load_findings
 import paramlib as pl
@@ -48,25 +53,30 @@ def poly_func(rng):
     return func, "poly%s@%d" % (cs, k0)
 
 
-def tensor_case(rng, syms, with_bubble):
-    """(diagram, description, has_bubble, composite_inside)"""
+def tensor_case(rng, syms, with_bubble, func_rng=None, data_rng=None, tail=None):
+    """(diagram, description, has_bubble, composite_inside).
+    func_rng / data_rng / tail (default off: the stream of the plain families is unchanged): the
+    bubble function, the box entries, the numeric tails come from their own generators, so that
+    calls with equal `rng` seeds give diagrams that look alike (histories)."""
     from discopy.tensor import Dim, Id
-    g = pl.TensorGen(rng, syms, polyonly=rng.random() < 0.6)
+    polyonly = rng.random() < 0.6
+    g = pl.TensorGen(rng, syms, polyonly=polyonly and tail is None, data_rng=data_rng, tail=tail)
     if not with_bubble:
         g.repeat = 0.35         # the same box object again at another offset / depth
         d, _ = g.diagram(rng.randint(1, 4))
         return d, "plain", False, False
     # single-wire bubble: inside : Dim(a) -> Dim(b)
     a, b = rng.choice([1, 2, 2, 3]), rng.choice([1, 2, 2])
-    func, fname = poly_func(rng)
+    func, fname = poly_func(func_rng or rng)
     composite = rng.random() < 0.3
     if composite:
         m = rng.choice([2, 3])
         inside = g.box([a] if a > 1 else [], [m])[0] >> g.box([m], [b] if b > 1 else [])[0]
     else:
         inside = g.box([a] if a > 1 else [], [b] if b > 1 else [])[0]
-    bub = inside.bubble(func=func, drawing_name=fname)
-    shape = rng.choice(["alone", "alone", "before", "after", "both"])
+    bub = inside.bubble(func=func, drawing_name=fname if func_rng is None else "p")
+    shape = rng.choice(["alone", "alone", "before", "after", "both"] if func_rng is None
+                       else ["alone", "before", "after", "both", "both"])
     d = bub
     if shape in ("before", "both"):
         pre = g.box([rng.choice([2, 3])], [a] if a > 1 else [])[0]
@@ -74,7 +84,10 @@ def tensor_case(rng, syms, with_bubble):
     if shape in ("after", "both"):
         post = g.box([b] if b > 1 else [], [rng.choice([2, 3])])[0]
         d = d >> post
-    return d, "bubble:%s:%s" % (shape, "composite" if composite else "box"), True, composite
+    kind = "bubble:%s:%s" % (shape, "composite" if composite else "box")
+    if func_rng is not None:
+        kind += ":func=" + fname
+    return d, kind, True, composite
 
 
 def compare(rep, sig, case, got, want, point, exact=False):
@@ -97,9 +110,13 @@ def compare(rep, sig, case, got, want, point, exact=False):
     return True
 
 
-def check_tensor(rep, rng, syms, d, kind, has_bubble, composite):
+def check_tensor(rep, rng, syms, d, kind, has_bubble, composite, extra=None, collect=None, jacobian=True,
+                 variables=None):
+    """extra: merged into the reported case (history); collect: dict filled with the evaluated
+    gradient entries per symbol (for comparison with a fresh process)."""
     from discopy.tensor import Bubble, Swap, Box
     desc = dict(family="tensor", kind=kind, diagram=str(d)[:300] + " | " + repr(d)[:300])
+    desc.update(extra or {})
     try:
         ev = d.eval()
     except Exception as exc:
@@ -108,7 +125,7 @@ def check_tensor(rep, rng, syms, d, kind, has_bubble, composite):
     es = pl.entries(ev)
     true_syms = set().union(*[sympy.sympify(e).free_symbols for e in es]) if es else set()
     n_other = len([b for b in d.boxes if not isinstance(b, Bubble)])
-    for var in syms:
+    for var in (variables or syms):
         case = dict(desc, var=str(var))
         depends = var in pl.diagram_symbols(d) or (has_bubble and any(
             var in pl.diagram_symbols(b.inside) for b in d.boxes if isinstance(b, Bubble)))
@@ -143,14 +160,18 @@ def check_tensor(rep, rng, syms, d, kind, has_bubble, composite):
                 rep.fail("grad_eval_raises:" + type(exc).__name__, case, repr(exc)[:200])
             continue
         got = pl.entries(ge) if not isinstance(ge, int) else [0] * len(es)
+        if collect is not None:
+            collect[str(var)] = got
         point = pl.rational_point(rng, syms)
         sig = "tensor_grad_wrong"
         if has_bubble and n_other >= 1:
             sig = "grad_skips_bubble"                                                         # F9b
+        if extra and extra.get("position_in_history"):
+            sig = "tensor_grad_wrong:after_alike_diagram"
         if compare(rep, sig, case, got, diff_entries(es, var), point, exact=True):
             rep.count("tensor_grad_ok" + (":bubble" if has_bubble else ""))
     # jacobian: stacking in the order of the variables
-    if has_bubble:
+    if has_bubble or not jacobian:
         return
     vs = list(syms)
     rng.shuffle(vs)
@@ -217,9 +238,10 @@ def repeated_param_boxes(c):
     return n
 
 
-def check_circuit(rep, rng, syms, c, mode, jacobian=True):
+def check_circuit(rep, rng, syms, c, mode, jacobian=True, extra=None, collect=None, variables=None):
     """mode 'pure': grad(mixed=False) on a pure circuit, amplitudes; 'default': grad(x), CQ maps."""
     desc = dict(family=mode, diagram=repr(c)[:500])
+    desc.update(extra or {})
     mixed = mode == "default"
     if repeated_param_boxes(c):
         rep.count("circuit_with_repeated_equal_gate:" + mode)
@@ -229,7 +251,7 @@ def check_circuit(rep, rng, syms, c, mode, jacobian=True):
         rep.fail("eval_raises:" + type(exc).__name__, desc, repr(exc)[:200])
         return
     es = pl.entries(ev)
-    for var in syms:
+    for var in (variables or syms):
         case = dict(desc, var=str(var))
         depends = var in pl.diagram_symbols(c)
         rep.count("family:" + mode)
@@ -257,7 +279,11 @@ def check_circuit(rep, rng, syms, c, mode, jacobian=True):
             rep.fail("grad_eval_raises:" + type(exc).__name__, case, repr(exc)[:200])
             continue
         got = pl.entries(ge) if not isinstance(ge, int) else [0] * len(es)
+        if collect is not None:
+            collect[str(var)] = got
         sig = "%s_grad_wrong" % mode
+        if extra and extra.get("position_in_history"):
+            sig += ":after_alike_diagram"
         if mixed:
             sp, sm = scalar_kinds(c, var)
             if sp:
@@ -312,6 +338,311 @@ def check_circuit(rep, rng, syms, c, mode, jacobian=True):
     if compare(rep, sig, case, got, want.flatten().tolist(), pl.rational_point(rng, syms)):
         rep.count("jacobian_ok:%d" % len(vs))
 
+
+
+# --------------------------------------------------------------------------- histories: alike diagrams in one process
+
+HISTORY_MODES = ["tails:3"] * 5 + ["tails:2", "tails:5", "data", "same"]
+
+
+def data_size(d):
+    """Number of data entries of the boxes, bubbles opened."""
+    return sum(data_size(b.inside) if hasattr(b, "inside") else len(pl.flat_data(getattr(b, "data", None)))
+               for b in d.boxes)
+
+
+def history_groups(seed, quick):
+    """Groups of 2-3 diagrams that look alike, a pure function of (seed, tier) so that a fresh
+    process can rebuild them: same shape / names / gate classes with
+      func      -- bubbles applying DIFFERENT polynomials to the same inside (the function is not
+                   part of the bubble's repr, name or data),
+      tails:n   -- numeric constants (constant rotations, scalars, box entries) agreeing on n
+                   significant digits (3: equal under the '{:.3g}' of gate names),
+      data      -- independent data under the same names, same -- the same diagram built twice.
+    Each group carries the order in which its members are differentiated."""
+    rng = random.Random(seed * 1000003 + 151)
+    syms = pl.symbols(True, 3)
+    plan = [("bubble", 4), ("tensor", 2), ("pure", 3), ("default", 1)] if quick else \
+           [("bubble", 60), ("tensor", 30), ("pure", 50), ("default", 12)]
+    groups = []
+    for fam, n in plan:
+        for _ in range(n):
+            r = random.Random(rng.getrandbits(64))
+            k = r.choice([2, 2, 2, 3])
+            if fam == "bubble":
+                mode = r.choice(["func"] * 6 + HISTORY_MODES)
+            else:
+                mode = r.choice(HISTORY_MODES)
+            for _attempt in range(8):      # quick: small members only (cost grows fast with the entries)
+                if fam in ("bubble", "tensor"):
+                    if mode == "func":
+                        sd, dd = r.getrandbits(64), r.getrandbits(64)
+                        variants = [tensor_case(random.Random(sd), syms, True, func_rng=random.Random(r.getrandbits(64)),
+                                                data_rng=random.Random(dd)) for _ in range(k)]
+                    else:
+                        variants, _ = pl.alike_variants(
+                            r, k, lambda sr, dr, tail: tensor_case(sr, syms, fam == "bubble", func_rng=random.Random(7),
+                                                                   data_rng=dr, tail=tail), mode=mode)
+                else:
+                    nq = 1 if fam == "default" else 2
+
+                    def make(sr, dr, tail, fam=fam, nq=nq):
+                        gen = pl.CircuitGen(sr, syms, mixed=False, max_qubits=nq, rot2=(fam == "pure"), scalars=True,
+                                            ket=0.9, numeric=0.45, tail=tail, data_rng=dr)
+                        return gen.circuit(sr.randint(3, 4) if fam == "pure" else sr.randint(2, 3))[0]
+                    variants, _ = pl.alike_variants(r, k, make, mode=mode)
+                first = variants[0][0] if isinstance(variants[0], tuple) else variants[0]
+                if not quick or data_size(first) <= 16:
+                    break
+            order = list(range(k))
+            r.shuffle(order)
+            point = pl.rational_point(r, syms)
+            # differentiated: two symbols the members depend on (one more from the pool if they
+            # depend on fewer: the empty sum must not be a remembered one either)
+            first = variants[0][0] if isinstance(variants[0], tuple) else variants[0]
+            dep = sorted(all_symbols(first), key=str)
+            r.shuffle(dep)
+            variables = (dep + [x for x in syms if x not in dep])[:2]
+            groups.append(dict(family=fam, mode=mode, variants=variants, order=order, point=point,
+                               variables=variables, check_seed=r.getrandbits(64)))
+    return groups, syms
+
+
+def grad_values(fam, d, var, point):
+    """Evaluated gradient at the point, as complex numbers (the value a caller observes)."""
+    if fam in ("bubble", "tensor"):
+        ge = d.grad(var).eval()
+    elif fam == "pure":
+        ge = d.grad(var, mixed=False).eval(mixed=False)
+    else:
+        ge = d.grad(var).eval(mixed=True)
+    if isinstance(ge, int):
+        return []
+    return [[z.real, z.imag] for z in pl.numvec(pl.entries(ge), point)]
+
+
+def history_child(seed, tier):
+    """Run in a FRESH interpreter: for every group differentiate ONLY the member that the main
+    process differentiates last, so that no alike diagram was seen before it."""
+    import json
+    groups, syms = history_groups(seed, tier == "quick")
+    out = []
+    for g in groups:
+        idx = g["order"][-1]
+        d = g["variants"][idx]
+        d = d[0] if isinstance(d, tuple) else d
+        vals = {}
+        for var in g["variables"]:
+            try:
+                vals[str(var)] = grad_values(g["family"], d, var, g["point"])
+            except Exception as exc:
+                vals[str(var)] = "raises:" + type(exc).__name__
+        out.append(dict(idx=idx, values=vals))
+    print("HISTORY-CHILD " + json.dumps(out))
+
+
+def start_history_child(seed, tier):
+    import os
+    import subprocess
+    import sys
+    here = os.path.abspath(__file__)
+    return subprocess.Popen([sys.executable, here, "--history-child", str(seed), tier],
+                            stdout=subprocess.PIPE, stderr=subprocess.PIPE, text=True, env=dict(os.environ))
+
+
+def read_history_child(proc):
+    import json
+    try:
+        out, err = proc.communicate(timeout=300)
+    except Exception as exc:
+        proc.kill()
+        return None, repr(exc)
+    for line in out.splitlines():
+        if line.startswith("HISTORY-CHILD "):
+            return json.loads(line[len("HISTORY-CHILD "):]), None
+    return None, (err or out)[-400:]
+
+
+def check_histories(rep, seed, quick, child):
+    """Alike diagrams differentiated one after another in THIS process: each gradient must be the
+    gradient of its own diagram (oracle: sympy.diff of its own evaluation) and must not depend on
+    what was differentiated before (the value a fresh process computes for the same diagram)."""
+    groups, syms = history_groups(seed, quick)
+    last = []
+    for gi, g in enumerate(groups):
+        fam, done = g["family"], []
+        r = random.Random(g["check_seed"])
+        reprs = set()
+        for pos, idx in enumerate(g["order"]):
+            v = g["variants"][idx]
+            d = v[0] if isinstance(v, tuple) else v
+            reprs.add(repr(d))
+            extra = dict(history_mode=g["mode"], position_in_history=pos,
+                         differentiated_earlier_in_this_process=list(done))
+            if fam not in ("bubble", "tensor"):
+                extra["data"] = [str(getattr(b, "data", None))[:40] for b in d.boxes]
+            collect = {}
+            rep.count("history_family:" + fam)
+            if fam in ("bubble", "tensor"):
+                d, kind, hb, comp = v
+                done.append(kind + " | " + repr(d)[:200])
+                check_tensor(rep, r, syms, d, kind, hb, comp, extra=extra, collect=collect, jacobian=False,
+                             variables=g["variables"])
+            else:
+                done.append(repr(d)[:300])
+                check_circuit(rep, r, syms, d, "pure" if fam == "pure" else "default", jacobian=False,
+                              extra=extra, collect=collect, variables=g["variables"])
+            # the same call again gives the same sum (one symbol the diagram depends on)
+            for var in g["variables"][:1]:
+                try:
+                    a = d.grad(var, mixed=False) if fam == "pure" else d.grad(var)
+                    b = d.grad(var, mixed=False) if fam == "pure" else d.grad(var)
+                    if str(a) != str(b) or grad_len(a) != grad_len(b):
+                        rep.fail("grad_not_repeatable", dict(extra, diagram=repr(d)[:300], var=str(var)),
+                                 "%s then %s" % (str(a)[:150], str(b)[:150]))
+                    else:
+                        rep.count("history_repeatable")
+                except Exception:
+                    pass                        # raised and reported by the check above
+            if pos == len(g["order"]) - 1:
+                last.append((gi, g, idx, d, collect, extra))
+        rep.count("history_mode:" + g["mode"])
+        if len(reprs) == 1 and g["mode"] not in ("same", ):
+            rep.count("history_equal_repr_distinct_diagrams")
+    # against the fresh process
+    fresh, err = read_history_child(child) if child is not None else (None, "not started")
+    if fresh is None or len(fresh) != len(groups):
+        rep.count("history_fresh_process_unavailable")
+        rep.extra["history_child_error"] = str(err)[:300]
+        return
+    for (gi, g, idx, d, collect, extra), f in zip(last, fresh):
+        if f["idx"] != idx:
+            rep.count("history_fresh_process_unavailable")
+            continue
+        for var, got in sorted(collect.items()):
+            want = f["values"].get(var)
+            case = dict(extra, family=g["family"], diagram=repr(d)[:400], var=var)
+            rep.case("fresh|%d|%s" % (gi, var), len(g["order"]) >= 2)
+            if isinstance(want, str) or want is None:
+                rep.fail("grad_depends_on_earlier_calls", case, "fresh process: %s" % want)
+                continue
+            try:
+                a = pl.numvec(got, g["point"])
+            except Exception as exc:
+                rep.fail("grad_depends_on_earlier_calls", case, "not numeric here: %r" % (exc, ))
+                continue
+            b = np.array([complex(x, y) for x, y in want]) if want else np.zeros(len(a), dtype=complex)
+            if not pl.close(a, b):
+                k = int(np.argmax(np.abs(a - b))) if a.shape == b.shape else -1
+                rep.fail("grad_depends_on_earlier_calls", case,
+                         "entry %d of grad.eval(): %r after the earlier calls, %r as first call of a fresh process" % (
+                             k, a[k] if k >= 0 else a.shape, b[k] if k >= 0 else b.shape))
+            else:
+                rep.count("history_fresh_process_agrees")
+
+
+# --------------------------------------------------------------------------- sequences: subs / lambdify / slices, then grad
+
+def all_symbols(d):
+    """Symbols in the data of the boxes, bubbles opened."""
+    out = set(pl.diagram_symbols(d))
+    for b in d.boxes:
+        if hasattr(b, "inside"):
+            out |= all_symbols(b.inside)
+    return out
+
+
+def check_grad_sequences(rep, rng, syms, d, fam, kind=""):
+    """grad composed with the other parameter operations on one diagram:
+      subs then grad   d.subs(y, e).grad(x).eval()  ==  d/dx [ d.eval() with y := e ]   (e may mention x)
+      grad then subs   d.grad(x).subs(y, b).eval()  ==  [ d/dx d.eval() ] with y := b
+      recomposed       (d[:k] >> d[k:]).grad(x).eval() == d/dx d.eval()
+      lambdify, grad   a closed diagram has the empty sum as gradient"""
+    desc = dict(family="seq_" + fam, kind=kind, diagram=repr(d)[:500])
+    mixed = fam == "default"
+
+    def ev(x):
+        if fam == "tensor":
+            return x.eval()
+        return x.eval(mixed=mixed)
+
+    def gr(x, var):
+        return x.grad(var, mixed=False) if fam == "pure" else x.grad(var)
+
+    def entries_of(ge, n):
+        return pl.entries(ge) if not isinstance(ge, int) else [0] * n
+    free = sorted(all_symbols(d), key=str)
+    if not free:
+        rep.count("seq_skipped:no_symbols")
+        return
+    try:
+        es = pl.entries(ev(d))
+    except Exception as exc:
+        rep.fail("eval_raises:" + type(exc).__name__, desc, repr(exc)[:200])
+        return
+    eg = pl.ExprGen(rng, syms)
+    x = rng.choice(free)
+    if mixed and documented_refusal(d, x):
+        rep.count("refusal:notimpl_two_qubit_rotation")
+        return
+    others = [s for s in free if s != x]
+    steps = []
+    if others:
+        y = rng.choice(others)
+        e = rng.choice([eg.number(), eg.number(allow_float=False) * x + rng.choice([0, 1]),
+                        x ** 2 * rng.choice([1, sympy.Rational(1, 2)]), rng.choice(syms) + sympy.Rational(1, 3)])
+        steps.append(("subs_then_grad", (y, e)))
+        steps.append(("grad_then_subs", (y, eg.number())))
+    else:
+        steps.append(("subs_then_grad", (x, x * rng.choice([2, -1]) + rng.choice([0, 1]))))
+    steps.append(("recomposed", None))
+    steps.append(("lambdify_then_grad", None))
+    for what, args in steps:
+        target = d
+        case = dict(desc, sequence=what, var=str(x), subs=repr(args))
+        rep.count("seq:" + what)
+        rep.case("seq|%s|%s|%s|%r" % (fam, desc["diagram"], what, args), len(d.boxes) >= 2)
+        point = pl.rational_point(rng, syms)
+        try:
+            if what == "subs_then_grad":
+                target = d.subs(*args)
+                got = entries_of(ev(gr(target, x)), len(es))
+                want = diff_entries(pl.ref_subs(es, args), x)
+            elif what == "grad_then_subs":
+                got = entries_of(ev(gr(d, x).subs(*args)), len(es))
+                want = pl.ref_subs(diff_entries(es, x), args)
+            elif what == "recomposed":
+                if len(d.boxes) < 2:
+                    continue
+                k = rng.randint(1, len(d.boxes) - 1)
+                case["split_at"] = k
+                got = entries_of(ev(gr(d[:k] >> d[k:], x)), len(es))
+                want = diff_entries(es, x)
+            else:
+                vals = [rng.choice([0.5, 0.25, 2, -1]) for _ in free]
+                case["values"] = vals
+                g = gr(d.lambdify(*free)(*vals), x)
+                if grad_len(g) != 0 or (g.dom, g.cod) != (d.dom, d.cod):
+                    from discopy.tensor import Box, Bubble
+                    if not (isinstance(d, (Box, Bubble)) and grad_len(g) is None):
+                        rep.fail("closed_diagram_gradient_not_empty_sum", case, repr(g)[:200])
+                else:
+                    rep.count("seq_ok:" + what)
+                continue
+        except NotImplementedError:
+            rep.count("refusal:notimpl_two_qubit_rotation")
+            continue
+        except Exception as exc:
+            rep.fail("%s_raises:%s" % (what, type(exc).__name__), case, repr(exc)[:200])
+            continue
+        sig = what + "_wrong"
+        if mixed and scalar_kinds(target, x)[0]:
+            sig = "mixed_grad_wrong:pure_scalar"                                              # F9
+        try:
+            if compare(rep, sig, case, got, want, point):
+                rep.count("seq_ok:" + what)
+        except Exception as exc:
+            rep.fail(sig + ":not_numeric", case, repr(exc)[:200])
 
 # --------------------------------------------------------------------------- witnesses of the findings
 
@@ -415,15 +746,18 @@ def tok_xdiagram(dom, xlayers, syms):
     return " ".join(out)
 
 
-def bubble_model_case(rng, syms):
+def bubble_model_case(rng, syms, func_rng=None):
     """pre? >> inside.bubble(func) >> post?  with integer-polynomial boxes, `func` a polynomial with
-    integer coefficients given to both sides as its coefficient list."""
+    integer coefficients given to both sides as its coefficient list.  func_rng (default: rng):
+    source of the coefficients -- equal `rng` seeds with different `func_rng` give diagrams that
+    differ in the bubble's function only (equal repr, name, boxes)."""
     g = pl.TensorGen(rng, syms, polyonly=True, maxdim=6)
     a, b = rng.choice([1, 2, 2, 3]), rng.choice([1, 2, 2])
     composite = rng.random() < 0.3
     g.maxdeg = 1 if composite else 2
-    deg = rng.randint(1, 2 if composite else 3)
-    cs = [rng.choice([-2, -1, 0, 1, 1, 2]) for _ in range(deg)] + [rng.choice([-1, 1, 2])]
+    fr = func_rng or rng
+    deg = fr.randint(1, 2 if composite else 3)
+    cs = [fr.choice([-2, -1, 0, 1, 1, 2]) for _ in range(deg)] + [fr.choice([-1, 1, 2])]
 
     def func(v, cs=tuple(cs)):
         return sum(c * v ** k for k, c in enumerate(cs))
@@ -451,18 +785,28 @@ def bubble_model_case(rng, syms):
     return d, dom, xl, "%s:%s:deg%d" % (shape, "composite" if composite else "box", len(cs) - 1)
 
 
-def bubble_stream(rep, drv, rng, n_cases, flag):
+def bubble_stream(rep, drv, rng, n_cases, flag, alike_groups=0):
     """Evaluation and gradient (number of terms, evaluation of the sum) of diagrams with a
     polynomial bubble: tensor.Bubble.grad (chain rule through two spiders) on discopy against the
-    model's `xboxGrad` / `spiderSandwich`, compared exactly in polynomial normal form."""
+    model's `xboxGrad` / `spiderSandwich`, compared exactly in polynomial normal form.
+    alike_groups: afterwards, that many groups of 2-3 diagrams differing ONLY in the bubble's
+    function, differentiated one after the other (the model is a function of the diagram; the
+    library's answer must not depend on the diagrams differentiated before)."""
     syms = pl.symbols(True, NV)
     lines, reals, cases = [], [], []
     t0 = time.time()
+    prepared = []
     for _ in range(n_cases):
-        r = random.Random(rng.getrandbits(64))
-        d, dom, xl, kind = bubble_model_case(r, syms)
+        prepared.append((bubble_model_case(random.Random(rng.getrandbits(64)), syms), "bubble_model_case:"))
+    arng = random.Random(rng.getrandbits(64) ^ 0x15a11ce)
+    for _ in range(alike_groups):
+        s0 = arng.getrandbits(64)
+        for _ in range(arng.choice([2, 2, 3])):
+            prepared.append((bubble_model_case(random.Random(s0), syms, func_rng=random.Random(arng.getrandbits(64))),
+                             "bubble_model_alike:"))
+    for (d, dom, xl, kind), label in prepared:
         tok = tok_xdiagram(dom, xl, syms)
-        rep.count("bubble_model_case:" + kind.split(":deg")[0])
+        rep.count(label + kind.split(":deg")[0])
 
         def real_eval(d=d):
             es = pl.entries(d.eval())
@@ -510,7 +854,15 @@ def run(tier, seed, replay=None):
                 "controlled rotations); every symbol of the pool differentiated (absent ones "
                 "must give the empty sum); jacobians over 0-3 shuffled variables; non-trivial = the "
                 "diagram depends on the symbol and has >= 2 boxes (tensor: >= 1); distinct by "
-                "(diagram, symbol)")
+                "(diagram, symbol).  SEQUENCES (families seq_*): subs (a number, or an expression mentioning "
+                "the differentiated symbol) then grad, grad then subs of the formal sum, grad of a diagram "
+                "recomposed from two slices, lambdify then grad (empty sum).  HISTORIES: groups of 2-3 "
+                "diagrams that look alike -- bubbles applying different polynomials to the same inside "
+                "(equal repr), constant gates / scalars / box entries agreeing on 2/3/5 significant digits "
+                "(3: equal gate names), independent data under the same names, the same diagram built "
+                "twice -- differentiated one after another in a random order in ONE process: each gradient "
+                "against sympy.diff of its own evaluation AND against the value computed for the same "
+                "diagram as first call of a fresh interpreter; grad called twice gives the same sum")
     rep.partial = [
         "sympy.diff is the reference derivative (outside the model)",
         "per-gate rules are proved symbolically in nu = exp(i pi p(x)) over a commutative ring with a "
@@ -521,6 +873,10 @@ def run(tier, seed, replay=None):
         "functions are oracle-only",
         "zx.Spider.grad is proved for the symmetric phase convention (as Rz); ZX diagrams have no "
         "evaluation in discopy 0.3.5 and are outside C15's quantifier: not exercised by the oracle",
+        "state carried between calls is outside the model (a pure function of the diagram): histories are "
+        "decided by the oracle, by comparison with a fresh process, and by the exact stream xgrad run on "
+        "bubbles differing only in their function; subs-then-grad / grad-then-subs are proved for tensor "
+        "diagrams of plain boxes over any ring homomorphism and derivation, oracle-only for circuits",
     ]
     rep.assumptions = [
         "symbols are real (the CQ map of a rotation is not holomorphic in a complex phase)",
@@ -531,13 +887,15 @@ def run(tier, seed, replay=None):
         "ClassicalGate boxes are used in default mode only (outside the quantifier; "
         "ClassicalGate.grad(x, mixed=False) raises TypeError: notes/finding_F9.md, remark)",
     ]
+    child = start_history_child(seed, tier)      # works while the streams below run
     rep.lean = lean_obligations(PROP, thorough=not quick)
     rng = random.Random(seed)
     drv = Driver()
     try:
         flag = model_stream(rep, drv, random.Random(rng.getrandbits(64)), 40 if quick else 300)
         # own generator: the cases of the other families stay those of earlier runs of the same seed
-        bubble_stream(rep, drv, random.Random(seed * 1000003 + 15), 14 if quick else 100, flag)
+        bubble_stream(rep, drv, random.Random(seed * 1000003 + 15), 14 if quick else 100, flag,
+                      alike_groups=4 if quick else 30)
     finally:
         drv.close()
     syms = pl.symbols(True, 3)
@@ -592,5 +950,30 @@ def run(tier, seed, replay=None):
                 # is taken on the 1-qubit cases only
                 check_circuit(rep, r, syms, c, "default", jacobian=not (quick and nq == 2))
         walls[fam] = round(time.time() - t0, 2)
+    # sequences and histories: own generators (the cases above stay those of earlier runs)
+    t0 = time.time()
+    srng = random.Random(seed * 1000003 + 152)
+    for fam, n in ([("tensor", 8), ("bubble", 3), ("pure", 3), ("default", 1)] if quick
+                   else [("tensor", 80), ("bubble", 30), ("pure", 50), ("default", 10)]):
+        for _ in range(n):
+            r = random.Random(srng.getrandbits(64))
+            if fam in ("tensor", "bubble"):
+                d, kind, hb, comp = tensor_case(r, syms, fam == "bubble")
+                check_grad_sequences(rep, r, syms, d, "tensor", kind)
+            else:
+                nq = 2 if fam == "pure" else 1
+                c, _ = pl.CircuitGen(r, syms, mixed=False, max_qubits=nq, rot2=(fam == "pure"),
+                                     ket=0.9).circuit(r.randint(2, 4))
+                check_grad_sequences(rep, r, syms, c, fam)
+    walls["sequences"] = round(time.time() - t0, 2)
+    t0 = time.time()
+    check_histories(rep, seed, quick, child)
+    walls["histories"] = round(time.time() - t0, 2)
     rep.extra["family_wall_s"] = walls
     return rep.finish()
+
+
+if __name__ == "__main__":
+    import sys
+    if len(sys.argv) == 4 and sys.argv[1] == "--history-child":
+        history_child(int(sys.argv[2]), sys.argv[3])
